@@ -427,6 +427,47 @@ fn zst_cells(ctx: &vh::explore::Ctx, stats: &mut Stats) {
     }
 }
 
+/// Instances that go away while their thread unwinds: what they lent is dropped exactly once all
+/// the same (the original, a clone, and a clone with a delegation helper that lent a value).
+fn unwind_cells(ctx: &vh::explore::Ctx, stats: &mut Stats) {
+    for who in ["original", "clone", "clone-with-helper"] {
+        for n in [1usize, 3] {
+            let cell = format!("unwound/{who}/{n}-values");
+            stats.add("traces_validated_against_impl", 1);
+            stats.add("transitions", n as u64 + 2);
+            stats.add("unwind_cells", 1);
+            let ledger = Arc::new(Ledger::default());
+            let (original, _) = build(&ledger);
+            let l2 = ledger.clone();
+            let r = catch(move || {
+                let original = Quiet::new(original);
+                let clone = Quiet::new(original.clone());
+                let inst: &Unimock = if who == "original" { &original } else { &clone };
+                for _ in 0..n {
+                    let _: &P1 = inst.make_ref(P1::new(&l2));
+                }
+                if who == "clone-with-helper" {
+                    let _: &P1 = <Unimock as L>::prov(inst);
+                }
+                // the clone is declared last, so it unwinds first; then the original
+                panic!("user panic while values are lent");
+            });
+            if r.is_ok() {
+                machinery("the unwinding cell did not panic");
+            }
+            let total = ledger.next_id.load(Ordering::SeqCst);
+            let dropped = ledger.dropped();
+            if dropped.len() as u32 != total || dropped.values().any(|k| *k != 1) {
+                ctx.violation(
+                    "unwound",
+                    &format!("{cell}: after the instances were dropped by unwinding, {} of {total} lent / configured values were dropped (each exactly once expected): {dropped:?}", dropped.len()),
+                    J::obj().set("unwind_cell", cell.as_str()),
+                );
+            }
+        }
+    }
+}
+
 fn long_chain(n: usize, stack: usize) -> Result<(), String> {
     let r = std::thread::Builder::new()
         .stack_size(stack)
@@ -698,6 +739,7 @@ fn main() {
     }
     stats.add("sequential_sequences", stats.get("traces_validated_against_impl"));
     zst_cells(ctx, &mut stats);
+    unwind_cells(ctx, &mut stats);
     // long chains at the stated bound
     // (thousands of values; small stacks make recursion in lending or releasing visible)
     for (n, stack) in [(1024usize, 64 * 1024usize), (4096, 64 * 1024), (4096, 2 * 1024 * 1024), (9000, 128 * 1024), (20000, 64 * 1024)] {
